@@ -22,3 +22,9 @@ Definition chk_step_shape_gen (c : scase) : bool :=
   match res with Some r => cnf_eqb (step_gen op self args) r | None => true end.
 Definition chk_step_all_gen (c : scase) : bool :=
   chk_step_table c && chk_step_table_gen c && chk_step_shape_gen c && chk_step_shape c.
+
+(* the regenerated model alone (the hand model is proved equal to it: Props/C15.v hand_model_is_generated,
+   Proofs/PredProofs.v logical_and/or/not_shape_p); the harness evaluates the hand-model checkers only on the cases
+   these reject, to tell which model disagrees *)
+Definition chk_form_gen_only (c : pcase) : bool := chk_form_table_gen c && chk_form_shape_gen c.
+Definition chk_step_gen_only (c : scase) : bool := chk_step_table_gen c && chk_step_shape_gen c.
